@@ -24,8 +24,8 @@
 EXTENDS FilterSel, SequencesExt, FiniteSetsExt, Json, IOUtils
 
 CONSTANTS MaxRows,     \* rows per file in the exhaustive single-file layouts
-          FullProj     \* TRUE: every filter with every projection; FALSE: the non-trivial projections
-                       \*       are crossed with the reduced filter set only
+          FullProj     \* TRUE: six projections, each with every filter; FALSE: four projections, the
+                       \*       non-trivial ones crossed with the small filter set ProjFilters only
 
 VARIABLE c
 
@@ -83,7 +83,12 @@ MultiFilters == { NoFilter,
                   <<E("a", "==", 0), E("b", "!=", 0)>>, <<E("b", "not_in", {0}), E("a", "is_null", 0)>>,
                   <<E("a", "!=", 0), E("b", "==", 0)>>, <<E("a", "==", 1), E("b", "!=", 0)>> }
 
-Projs == { ProjAll, <<"rid">>, <<"a", "rid">>, <<"b", "rid">>, <<"rid", "b", "a">>, <<"b">> }
+\* with a non-trivial projection (unless FullProj): filters on either column, both, none
+ProjFilters == { NoFilter, <<E("a", "==", 0)>>, <<E("a", "is_null", 0)>>, <<E("b", "!=", 0)>>, <<E("b", "not_in", {0})>>,
+                 <<E("b", "in", {2, NULL})>>, Btw("b", 1, 3), <<E("a", "==", 0), E("b", "!=", 0)>> }
+
+Projs == IF FullProj THEN { ProjAll, <<"rid">>, <<"a", "rid">>, <<"b", "rid">>, <<"rid", "b", "a">>, <<"b">> }
+         ELSE { ProjAll, <<"rid">>, <<"rid", "b", "a">>, <<"b">> }
 
 (* --------------------- filter-condition shapes ------------------------- *)
 Shape(k, op, isStr, vk, xs) == [k |-> k, op |-> op, opIsStr |-> isStr, vk |-> vk, xs |-> xs]
@@ -118,13 +123,13 @@ Case(kind, grp, files, exprs, proj, cond, condB) ==
   [kind |-> kind, grp |-> grp, files |-> files, exprs |-> exprs, proj |-> proj, cond |-> cond, condB |-> condB]
 Group(grp, files, proj) == Case("G", grp, files, <<>>, proj, NoCond, NoCond)
 Groups == {Group("single", l, p) : l \in SingleLayouts, p \in Projs} \cup {Group("multi", l, p) : l \in MultiLayouts, p \in Projs}
-     \cup {Group("one", l, p) : l \in PLayouts, p \in {ProjAll, <<"rid">>}}
+     \cup {Group("one", l, p) : l \in PLayouts, p \in (IF FullProj THEN {ProjAll, <<"rid">>} ELSE {ProjAll})}
      \cup {Group("two", l, ProjAll) : l \in {<<PFile1>>, <<PFile1, PFile1>>}}
      \cup {Group("thm", <<>>, ProjAll)}
-FiltersFor(grp, proj) == IF grp = "single" /\ (FullProj \/ proj = ProjAll) THEN Filters ELSE MultiFilters
+FiltersFor(grp, proj) == IF FullProj \/ proj = ProjAll THEN (IF grp = "single" THEN Filters ELSE MultiFilters) ELSE ProjFilters
 CasesOf(g) ==
   CASE g.grp = "single" -> {Case("S", "single", g.files, e, g.proj, NoCond, NoCond) : e \in FiltersFor("single", g.proj)}
-    [] g.grp = "multi"  -> {Case("S", "multi", g.files, e, g.proj, NoCond, NoCond) : e \in MultiFilters}
+    [] g.grp = "multi"  -> {Case("S", "multi", g.files, e, g.proj, NoCond, NoCond) : e \in FiltersFor("multi", g.proj)}
     [] g.grp = "one"    -> {Case("P", "one", g.files, <<>>, g.proj, s, NoCond) : s \in Shapes}
     [] g.grp = "two"    -> {Case("P", "two", g.files, <<>>, g.proj, s, t) : s \in PCondA, t \in PCondB}
     [] g.grp = "thm"    -> {Case("T", "thm", <<>>, <<>>, g.proj, NoCond, NoCond)}
@@ -155,11 +160,13 @@ FltP(x) == [stage |-> StageP(x), exprs |-> ExprsOfConds(x, Understood)]
 RefMalformedOf(x) == IF x.kind = "P" THEN RefMalformedP(x) ELSE FALSE
 RefExprsOf(x)     == IF x.kind = "P" THEN RefExprsP(x) ELSE x.exprs
 FltOf(x)          == IF x.kind = "P" THEN FltP(x) ELSE [stage |-> "ok", exprs |-> x.exprs]
-\* whether b is a float column only matters to the != arm of file pruning
-FloatChoices(x)   == IF HasNaN(x.files) THEN {TRUE}
-                     ELSE IF \E i \in 1..Len(RefExprsOf(x)) : RefExprsOf(x)[i].op = "!=" /\ RefExprsOf(x)[i].col = "b" THEN BOOLEAN
-                     ELSE {TRUE}
-FloatColsOf(fl)   == IF fl THEN {"b"} ELSE {}
+\* Which columns are float/double columns matters to (a) the != arm of file pruning, (b) the signed-zero
+\* `in` arm of the row-group statistics; NaN exists only in a float column b.  All relevant choices:
+FloatChoices(x) ==
+  LET es  == RefExprsOf(x)
+      rel == {es[i].col : i \in {j \in 1..Len(es) : es[j].op \in {"in", "!=", "not_in"}}}
+      nb  == IF HasNaN(x.files) THEN {"b"} ELSE {}
+  IN {(S \cap rel) \cup nb : S \in SUBSET {"a", "b"}}
 
 (* ----------------------------- invariants ------------------------------ *)
 \* value-level theorem over the whole domain (kind "T")
@@ -174,8 +181,8 @@ EngineRowsMatchReference ==
 SelAgreesWithFilterSelect == c.kind = "S" => SelIsSelect(c.files, c.exprs)
 
 StatsArms ==
-  c.kind = "S" => \A f \in 1..Len(c.files) : \A i \in 1..Len(c.exprs) :
-     StatsSoundArmsNeutralAt(c.files[f], c.exprs[i]) /\ StatsNaNArmsOnlyNaNAt(c.files[f], c.exprs[i])
+  c.kind = "S" => \A f \in 1..Len(c.files) : \A i \in 1..Len(c.exprs) : \A fc \in FloatChoices(c) :
+     StatsArmsAt(c.files[f], c.exprs[i], fc)
 
 ParserConforms ==
   c.kind = "P" => \A i \in 1..Len(CondsOf(c)) : ParserConformsAt(CondsOf(c)[i][2])
@@ -183,11 +190,11 @@ ParserConforms ==
 \* C12 itself: every API, both checksum settings, every projection.
 ApiConforms ==
   c.kind \in {"S", "P"} =>
-     \A fl \in FloatChoices(c) : ApiConformsAt(c.files, RefMalformedOf(c), RefExprsOf(c), FltOf(c), c.proj, FloatColsOf(fl))
+     \A fc \in FloatChoices(c) : ApiConformsAt(c.files, RefMalformedOf(c), RefExprsOf(c), FltOf(c), c.proj, fc)
 \* ... and for the code as it is: deviations are confined to the two characterised defects.
 ApiConformsModuloKnown ==
   c.kind \in {"S", "P"} =>
-     \A fl \in FloatChoices(c) : ApiConformsModuloKnownAt(c.files, RefMalformedOf(c), RefExprsOf(c), FltOf(c), c.proj, FloatColsOf(fl))
+     \A fc \in FloatChoices(c) : ApiConformsModuloKnownAt(c.files, RefMalformedOf(c), RefExprsOf(c), FltOf(c), c.proj, fc)
 
 (* ------------------------------- export -------------------------------- *)
 LitOut(e) == IF e.op \in SetOps THEN SetToSortSeq(e.lit, <) ELSE <<e.lit>>
@@ -195,9 +202,13 @@ ExprOut(e) == [col |-> e.col, op |-> e.op, lit |-> LitOut(e)]
 ExprsOut(es) == [i \in 1..Len(es) |-> ExprOut(es[i])]
 OutcomeOut(o) == IF o.raise THEN "raise" ELSE IF o.out = <<>> THEN "empty" ELSE "rows"
 FlNaN(x) == IF HasNaN(x.files) THEN {"b"} ELSE {}
+LostIf(files, exprs, fc) ==
+  IF StatsPushdown /\ (HasNaN(files) => "b" \in fc) THEN LostToStats(files, exprs, fc) ELSE {}
 OutS(grp, files, exprs) ==
   [kind |-> "S", grp |-> grp, files |-> files, exprs |-> ExprsOut(exprs), sel |-> Sel(files, exprs),
-   d1 |-> IF StatsPushdown THEN NaNRowsOfSkipped(files, exprs) ELSE {}]
+   \* rows the model of the code as it is predicts scan(verify_checksums=False) loses, per set of float columns
+   lost |-> [none |-> LostIf(files, exprs, {}), a |-> LostIf(files, exprs, {"a"}),
+             b |-> LostIf(files, exprs, {"b"}), ab |-> LostIf(files, exprs, {"a", "b"})]]
 OutP(x) == [kind |-> "P", grp |-> x.grp, files |-> x.files, cond |-> x.cond, condB |-> x.condB,
             refMalformed |-> RefMalformedP(x), refExprs |-> ExprsOut(RefExprsP(x)),
             stage |-> StageP(x), sel |-> Sel(x.files, RefExprsP(x)),
